@@ -13,7 +13,10 @@ Inductive case :=
      observed ok and qn (qn = -1: panicked); the harness' own exact-arithmetic qn (-1 panic, -2 n/a) *)
 | CQ (p : params) (pi : string) (h wm ts : Z) (ok : bool) (qn : Z) (exq : Z)
   (* 32 bytes; observed isCanonical *)
-| CC (s : string) (obs : N).
+| CC (s : string) (obs : N)
+  (* expanded secret scalar x, nonce k (both 32 bytes, little-endian, from the H5 exports), honest proof:
+     its last 32 bytes must be (c*x + k) mod ell *)
+| CS (x k pi : string).
 
 Definition P (mq pmin pmax pidx th : Z) : params :=
   {| maxqn := mq; pp_min := pmin; pp_max := pmax; pp_idx := pidx; thr := th |}.
@@ -42,4 +45,7 @@ Definition check (c : case) : bool :=
   | CT pi obs v hv => chk_transport (unhex pi) (unhex obs) v hv
   | CQ p pi h wm ts ok qn exq => chk_qn p (unhex pi) h wm ts ok qn exq
   | CC s obs => (is_canonical_go (unhex s) =? obs)%N
+  | CS x k pi => let pb := unhex pi in
+                 (le_val (proof_s pb) =? response (unhex x) (unhex k) (proof_c pb))%N
+                 && (le_val (proof_c pb) <? ell25519)%N
   end.
